@@ -29,12 +29,16 @@ BOUNDS = ('region/symm obligations: every float32 / float64 argument of the stat
 ASSUMPTIONS = ['clang-14 -O1 lowering is correct', 'x86 intrinsic models', 'MXCSR default rounding, no FTZ/DAZ',
                'abstract mode facts are IEEE-754 theorems: commutativity of add/mul/fma operands, NaN propagation, sqrt(x<0)=NaN, x-y = x+(-y), sign symmetry of mul/div for non-NaN results',
                '__ieee754_rem_pio2 is kept out of line by the XSIMD_VERIF_HOOKS guard and modelled as a deterministic function with y = NaN, n = 0 for NaN/inf arguments',
-               'NaN results are compared as NaN (payload/sign unspecified)']
+               'NaN results are compared as NaN (payload/sign unspecified)', 'point obligations: NaN intermediates produced from concrete operands carry the x86 default QNaN bit pattern']
 EXTRA_FLAGS = ['-DXSIMD_VERIF_HOOKS']
+JOB_BUDGET = {'quick': 420, 'thorough': 3600}
+IGNORE_INTERNAL = ('unwind',)     # termination / loop bounds are C14's obligations; here paths are cut after max_unwind iterations (stated bound)
 MIN_COVERED = {'quick': 300, 'thorough': 500}
-TIMEOUT = {'quick': 120, 'thorough': 900}
+TIMEOUT = {'quick': 40, 'thorough': 600}
+QUICK_VARIANTS = ['sse2', 'avx512f']
 
 UNARY = K.MATH_UNARY
+SYM_OPS = ('erf', 'cbrt')
 ODD = ['sin', 'tan', 'asin', 'atan', 'sinh', 'tanh', 'asinh', 'atanh', 'erf', 'cbrt']
 EVEN = ['cos', 'cosh']
 
@@ -90,16 +94,29 @@ REGION_LIMITS = {
 
 
 def variants(tier):
-    return K.MATH_ARCHS
+    return QUICK_VARIANTS if tier == 'quick' else K.MATH_ARCHS
+
+
+def lanes_checked(k, n):
+    """quick: lane 0 and the last lane (the kernels are lane-symmetric source; C13 covers lane independence); thorough: every lane"""
+    import os
+    if os.environ.get('XV_TIER', _TIER[0]) == 'thorough': return list(range(n))
+    return sorted({0, n - 1})
+
+
+_TIER = ['quick']
 
 
 def kernels(tier, seed):
+    _TIER[0] = tier
     ks = []
     for arch in variants(tier):
         for ty in gen.FTYPES:
             w = TYPES[ty][1]; n = lanes(ty, arch)
             for f in UNARY:
                 k = K.mk('C12', f, 'v', 'v', 'xsimd::%s(a)' % f, ty, arch); ks.append(k)
+                if f in DOMAIN:
+                    ks.append(Kernel('C12', f, ty, arch, [('v', ty)], ('v', ty), 'xsimd::%s(a)' % f, variant='dom', meta={'fname': k.name}))
                 for j, (x, exp) in enumerate(POINTS.get(f, [])):
                     if abs(x) > 3e38 and x not in (INF, -INF) and w == 32: continue
                     ks.append(Kernel('C12', f, ty, arch, [('v', ty)], ('v', ty), 'xsimd::%s(a)' % f, variant='pt%d' % j,
@@ -128,8 +145,17 @@ def kernels(tier, seed):
 
 def exec_opts(k):
     if 'concrete' in k.meta:
-        return {'fpmode': 'exact', 'max_unwind': 80, 'stubs': mathstubs.STUBS, 'max_steps': 2000000}
-    return {'fpmode': 'abstract', 'max_unwind': 8, 'stubs': mathstubs.STUBS}
+        return {'fpmode': 'exact', 'max_unwind': 80, 'stubs': mathstubs.STUBS, 'max_steps': 2000000, 'concrete_nan': True}
+    import os
+    if k.variant == 'dom':
+        return {'fpmode': 'mixed', 'max_unwind': 8, 'stubs': mathstubs.STUBS, 'sym_muldiv': bool(os.environ.get('XV_SYMDOM'))}
+    # sign-symmetric multiplication / division only where the plain commutative abstraction is known to be too weak (x*x on a signed x):
+    # it costs the solver an extra case split per product
+    if k.op in ('tgamma', 'lgamma'):
+        # the recurrence loops are cut after 3 symbolic iterations (region obligations then cover the arguments that need <= 3; the point
+        # obligations run the loops concretely to the end); loop termination itself is C14
+        return {'fpmode': 'abstract', 'max_unwind': 3, 'stubs': mathstubs.STUBS, 'lazy_forks': True}
+    return {'fpmode': 'abstract', 'max_unwind': 8, 'stubs': mathstubs.STUBS, 'sym_muldiv': k.op in SYM_OPS}
 
 
 def bits_of(x): return x.bits() if isinstance(x, F) else x
@@ -179,26 +205,27 @@ def obligations(run):
     obs = []
     if 'concrete' in k.meta:
         exp = k.meta['expect']
-        for i in range(n):
+        for i in lanes_checked(k, n):
             obs.append(Oblig('%s(%s)' % (op, k.meta['point']), True, (lambda i: lambda res: expect_pred(exp, bits_of(res[i]), w))(i), lane=i, kind='point'))
         return obs
     if op.startswith('id_'):
-        for i in range(n):
+        for i in lanes_checked(k, n):
             a = D[0]['lanes'][i]
             pre = z3.Not(z3.fpIsNaN(fpv(a, w))) if op != 'id_fabs_abs' else True
             obs.append(Oblig(op, pre, (lambda i: lambda res: tobv(bits_of(res[i]), w) == 0)(i), lane=i, rename={a.decl().name(): 'a'}))
         return obs
     symm_op = op in ODD or op in EVEN or op in ('sincos_s', 'sincos_c')
     sides_neg = [subst_neg(sd, run, w) for sd in run.ex.side] if symm_op else []
-    for i in range(n):
+    for i in lanes_checked(k, n):
         a = D[0]['lanes'][i]
         x = fpv(a, w)
         R = (lambda i: lambda res: tobv(bits_of(res[i]), w))(i)
         isnan_res = (lambda R: lambda res: z3.fpIsNaN(fpv(R(res), w)))(R)
+        if k.variant == 'dom':
+            obs.append(Oblig(op + '.domain', in_region(DOMAIN[op], a, w), isnan_res, lane=i, kind='region'))
+            continue
         if op in UNARY or op in ('sincos_s', 'sincos_c'):
             obs.append(Oblig(op + '.nan', z3.fpIsNaN(x), isnan_res, lane=i, kind='region'))
-        if op in DOMAIN:
-            obs.append(Oblig(op + '.domain', in_region(DOMAIN[op], a, w), isnan_res, lane=i, kind='region'))
         for rg, exp in REGION_LIMITS.get(op, []):
             obs.append(Oblig('%s.%s' % (op, rg), in_region(rg, a, w), (lambda R, exp: lambda res: expect_pred(exp, R(res), w))(R, exp), lane=i, kind='region', region_args=[a]))
         if op in ODD or op in EVEN or op == 'sincos_s' or op == 'sincos_c':
@@ -207,7 +234,8 @@ def obligations(run):
             def post(res, R=R, odd=odd):
                 r = R(res)
                 rn = subst_neg(r, run, w)
-                return rn == ((r ^ sb) if odd else r)
+                # bit-for-bit for every non-NaN result; a NaN result (argument outside the domain) must stay NaN (its sign/payload is not a value)
+                return z3.If(z3.fpIsNaN(fpv(r, w)), z3.fpIsNaN(fpv(rn, w)), rn == ((r ^ sb) if odd else r))
             obs.append(Oblig(op + ('.odd' if odd else '.even'), z3.And(z3.Not(z3.fpIsNaN(x)), *sides_neg), post, lane=i, kind='symm', replay_fn=symm_replay(i, odd)))
         if op in ('pow', 'atan2', 'hypot'):
             b = D[1]['lanes'][i]; y = fpv(b, w)
@@ -234,5 +262,8 @@ def symm_replay(i, odd):
         a = int.from_bytes(r1[i * w // 8:(i + 1) * w // 8], 'little'); b = int.from_bytes(r2[i * w // 8:(i + 1) * w // 8], 'little')
         info['native'] = 'f(x) lane %d = %#x, f(-x) = %#x' % (i, a, b)
         want = (a ^ (1 << (w - 1))) if odd else a
+        em = ((1 << (w - 1)) - 1) & ~((1 << (23 if w == 32 else 52)) - 1); mm = (1 << (23 if w == 32 else 52)) - 1
+        isnan = lambda v: (v & em) == em and (v & mm) != 0
+        if isnan(a): return (not isnan(b)), info
         return (b != want), info
     return fn
